@@ -314,8 +314,9 @@ def entries_check(lib_raw=None):
             for m in re.finditer(r'\bError\s*::\s*Parse\b', src):
                 line_end = src.find('\n', m.end())
                 rest = src[m.end():line_end if line_end >= 0 else len(src)]
-                if re.search(r'=>', rest) or re.search(r'\b(?:if|while)\s+let\b[^\n]*$', src[src.rfind('\n', 0, m.start()) + 1:m.start()]):
-                    continue            # a pattern (match arm / if let), not a construction
+                before = src[src.rfind('\n', 0, m.start()) + 1:m.start()]
+                if re.search(r'=>', rest) or re.search(r'\b(?:if|while)\s+let\b[^\n]*$', before) or re.search(r'matches!\s*\([^\n]*$', before) or re.search(r'\blet\s+(?:\w+\s*\(\s*)*$', before) or re.search(r'\|\s*$', before):
+                    continue            # a pattern (match arm, if let, let-else, matches!, or-pattern), not a construction
                 enc = None
                 for fm in re.finditer(r'\bfn\s+(\w+)', src[:m.start()]):
                     enc = fm.group(1)
